@@ -25,7 +25,8 @@ def make_case(inp):
     if api == "validate":
         obs = V.run_validate(cid, spec, text, limit)
     else:
-        obs = V.run_reader(cid, spec, text, mode, limit)
+        decoy = V.encode(spec, inp["decoy"]) if inp.get("decoy") else None
+        obs = V.run_reader(cid, spec, text, mode, limit, decoy)
     obs["raw_fault"] = raw_fault
     coq_in = P(V.coq_cid(spec), B(api == "validate"), V.MODES[mode], O(limit, Nat), L(raws, lambda r: L(r, S)), B(raw_fault))
     n_err = sum(1 for o in obs["outs"] if "err" in o) + (1 if obs["raised"] else 0)
